@@ -37,10 +37,6 @@ theorem takeKw_post (k : PostWord) (hw : lowerStr w = k.text) :
     simp [PostWord.text, ofString] at hw <;>
     simp [postKws_eq, takeKw, dropKw_none_of, dropKw_spelled, lowerStr_append, hw, startsWith, fe t hf]
 
-theorem takeKw_dev (hw : lowerStr w = devText) : takeKw devKws (w ++ t) = some ((), t) := by
-  simp [devText, ofString] at hw
-  simp [devKws_eq, takeKw, dropKw_spelled, hw]
-
 /-- a post-release word is not taken for a pre-release word -/
 theorem takeKw_pre_postword (k : PostWord) (hw : lowerStr w = k.text) : takeKw preKws (w ++ t) = none := by
   cases k <;>
@@ -48,6 +44,10 @@ theorem takeKw_pre_postword (k : PostWord) (hw : lowerStr w = k.text) : takeKw p
     simp [preKws_eq, takeKw, dropKw_none_of, lowerStr_append, hw, startsWith, fc t hf]
 
 end
+
+theorem takeKw_dev (w t : Str) (hw : lowerStr w = devText) : takeKw devKws (w ++ t) = some ((), t) := by
+  simp [devText, ofString] at hw
+  simp [devKws_eq, takeKw, dropKw_spelled, hw]
 
 theorem takeKw_pre_devword (w t : Str) (hw : lowerStr w = devText) : takeKw preKws (w ++ t) = none := by
   simp [devText, ofString] at hw
